@@ -321,7 +321,7 @@ def strip_pulls(items):
 
 
 # ------------------------------------------------------------------ certificate on impl images
-CERT_PROPS = {"C01", "C02", "C05", "C06", "C07", "C11", "C13", "C15"}
+CERT_PROPS = {"C01", "C02", "C03", "C04", "C05", "C06", "C07", "C11", "C13", "C15"}
 
 
 def run_cert_images(cases, impl, drv, drv_key, tag, timeout=1800):
@@ -368,16 +368,19 @@ def run_cert_images(cases, impl, drv, drv_key, tag, timeout=1800):
             for cid, lines in parse_obs(f.result()).items():
                 safe = None
                 stats = None
+                lcert = None
                 for l in lines:
                     if l.startswith("ISAFE"):
                         safe = l.split()[1]
                     if l.startswith("ISTATS"):
                         stats = l.split()[1]
+                    if l.startswith("ILCERT"):
+                        lcert = l.split()[1]
                     if l.startswith("ICERT"):
                         p = l.split()
-                        res[cid] = (p[1], int(p[2]), " ".join(p[3:]), safe, stats)
+                        res[cid] = (p[1], int(p[2]), " ".join(p[3:]), safe, stats, lcert)
     for c, _ in todo:
-        res.setdefault(c.id, ("0", 0, "checker did not answer (timeout or crash)", "0", "0"))
+        res.setdefault(c.id, ("0", 0, "checker did not answer (timeout or crash)", "0", "0", "0"))
     return res
 
 
